@@ -170,6 +170,7 @@ func exploreMetricsRaces(c *rt.Ctx) {
 			sched.Bubble(c.T, func() { r = runMetricsRace(sc, prefix) })
 			c.Eval(1)
 			c.Trace(1)
+			c.Trans(int64(len(r.S.Trace)))
 			outs[r.Outcome] = true
 			for _, f := range r.Findings {
 				violated = true
@@ -182,6 +183,7 @@ func exploreMetricsRaces(c *rt.Ctx) {
 		if ex.Truncated {
 			c.Cap(fmt.Sprintf("schedule cap reached for metrics race program %d (preemption bound %d)", pi, bound))
 		}
+		c.State(int64(len(outs)))
 		key := fmt.Sprintf("mrace|%d", pi)
 		c.Distinct(key)
 		c.Nontrivial(key)
